@@ -93,6 +93,41 @@ def run_batch(R, items, env_i, naming, workdir, stats):
             return
 
 
+def run_modules(R, trees, workdir, stats):
+    """the same equation texts in the root model and in two modules, each over its OWN a, b, c (different values):
+    a reference resolves to the variable of the model the equation belongs to"""
+    envs = {"": 0, "Plant A": 1, "Plant B": 2}
+    def num(q):
+        f = Fraction(*q)
+        return str(f.numerator) if f.denominator == 1 else repr(float(f))
+    def block(env_i):
+        env = expr_gen.ENVS[env_i]
+        return [X.aux(n, num(env[n])) for n in "abc"] + [X.aux("x%d" % k, t["xmin"]) for k, t in enumerate(trees)]
+    doc = X.document("c03m", block(0), modules={"Plant A": block(1), "Plant B": block(2)})
+    try:
+        sim, _ = X.compile_doc(doc, workdir)
+    except Exception as ex:
+        R.violation("a document with modules built from supported arithmetic equations does not compile", {"error": "%s: %s" % (type(ex).__name__, str(ex)[:200])})
+        return
+    for mname, env_i in envs.items():
+        prefix = "" if mname == "" else mname[0].lower() + mname[1:].replace(" ", "") + "."
+        for k, t in enumerate(trees):
+            ref_v = t["val"][env_i]
+            if ref_v[1] == 0:
+                continue
+            try:
+                v = float(sim.equation(prefix + "x%d" % k, 1.0))
+            except Exception as ex:
+                R.violation("equation of a module cannot be evaluated", {"module": mname, "equation": t["xmin"], "error": "%s: %s" % (type(ex).__name__, str(ex)[:120])})
+                return
+            stats["module_compared"] = stats.get("module_compared", 0) + 1
+            exp = ref_v[0] / ref_v[1]
+            if not math.isclose(v, exp, rel_tol=1e-9, abs_tol=1e-9):
+                R.violation("an equation inside a module is evaluated over another model's variables",
+                            {"module": mname or "(root)", "equation": t["xmin"], "own_values": expr_gen.ENVS[env_i], "expected": exp, "observed": v})
+                return
+
+
 def run(tier, replay_file=None):
     R = common.Run("C03", tier, "translation_validation")
     quick = tier == "quick"
@@ -125,6 +160,10 @@ def run(tier, replay_file=None):
                     break
             if len(R.violations) >= 25:
                 break
+        # references inside modules (same equation text in several models of one document)
+        core_trees = [t for t in trees if t["core"]]
+        run_modules(R, rng.sample(core_trees, min(len(core_trees), 80 if quick else 400)), workdir, stats)
+        docs += 1
         # equations outside the supported grammar must fail loudly, never produce a value
         unsupported = ["FOO(a)", "a +* b", "a ) + ( b", "UNKNOWNFN(a, b) + 1", "a b", "MAX(a", "IF a > b THEN", "a ? b : c"]
         for text in unsupported:
@@ -140,7 +179,7 @@ def run(tier, replay_file=None):
         shutil.rmtree(workdir, ignore_errors=True)
     R.cov.update({"equations_compared": stats.get("compared", 0), "loud_equations": stats.get("loud", 0),
                   "skipped_undefined_reference": stats.get("undef", 0), "documents_split": stats.get("doc_failures", 0),
-                  "unsupported_rejected": stats.get("unsupported_loud", 0)})
+                  "unsupported_rejected": stats.get("unsupported_loud", 0), "module_equations_compared": stats.get("module_compared", 0)})
     R.cov["disagreements_checked"] = stats.get("compared", 0)
     R.cov["traces_validated_against_impl"] = stats.get("compared", 0)
     if not R.violations and stats.get("compared", 0) < 3000:
